@@ -39,6 +39,9 @@ def syn_ctor(kind, dt, mode="previous"):
     return DoubleExponentialCurrent.partialconstructor(spike_charge=2.0, tc_decay=TD, tc_rise=TR, spike_interp_mode=mode)
 
 
+CONV_GEOM = {"conv": (1, 3, 1, 2), "conv22": (2, 3, 2, 2)}  # H, W, kH, kW (one channel)
+
+
 def build(conn, skind, dt, delay, B, Wt, Dt, mode="previous"):
     """delay=None -> undelayed. Wt/Dt tensors shaped like the connection's weight."""
     kw = dict(synapse=syn_ctor(skind, dt, mode), delay=delay, batch_size=B, weight_init=lambda w: Wt.clone())
@@ -50,7 +53,8 @@ def build(conn, skind, dt, delay, B, Wt, Dt, mode="previous"):
         return LinearDirect((2,), dt, **kw)
     if conn == "lateral":
         return LinearLateral((2,), dt, **kw)
-    return Conv2D(1, 3, 1, Wt.shape[0], dt, (1, 2), **kw)  # 1x3 input, kernel (1,2) -> L = 2 positions
+    H, Wd, kh, kw_ = CONV_GEOM[conn]
+    return Conv2D(H, Wd, 1, Wt.shape[0], dt, (kh, kw_), **kw)  # -> L = (H-kh+1)*(W-kw+1) positions
 
 
 def weight_for(conn, F=2):
@@ -60,6 +64,8 @@ def weight_for(conn, F=2):
         return torch.tensor([1.0, 2.0])
     if conn == "lateral":
         return torch.tensor([[0.0, 2.0], [4.0, 0.0]])
+    if conn == "conv22":
+        return torch.tensor([[[[1.0, 2.0], [4.0, 8.0]]], [[[16.0, 32.0], [64.0, 128.0]]]])[:F]
     return torch.tensor([[[[1.0, 2.0]]], [[[4.0, 8.0]]]])[:F]
 
 
@@ -71,7 +77,8 @@ def free_positions(conn, F=2):
         return [(0,), (1,)]
     if conn == "lateral":
         return [(0, 1), (1, 0)]
-    return [(f, 0, 0, k) for f in range(F) for k in range(2)]
+    _, _, kh, kw_ = CONV_GEOM[conn]
+    return [(f, 0, i, j) for f in range(F) for i in range(kh) for j in range(kw_)]
 
 
 def histories(T, insize):
@@ -105,7 +112,8 @@ def shard(conn, skind, dt, maxk, fractional, T, F=2, only_assign=None, only_clea
     maxdelay = maxk * dt
     W = weight_for(conn, F)
     pos = free_positions(conn, F)
-    insize = 3 if conn == "conv" else 2
+    isconv = conn in CONV_GEOM
+    insize = CONV_GEOM[conn][0] * CONV_GEOM[conn][1] if isconv else 2
     hs = histories(T, insize)
     B = len(hs)
     if fractional:
@@ -116,7 +124,7 @@ def shard(conn, skind, dt, maxk, fractional, T, F=2, only_assign=None, only_clea
     xs = []
     for t in range(T):
         x = torch.tensor([h[t] for h in hs], dtype=torch.bool)
-        xs.append(x.reshape(B, 1, 1, 3) if conn == "conv" else x)
+        xs.append(x.reshape(B, 1, CONV_GEOM[conn][0], CONV_GEOM[conn][1]) if isconv else x)
     cfg = {"conn": conn, "synapse": skind, "dt": dt, "max_delay": maxdelay, "maxk": maxk, "fractional": fractional, "T": T, "F": F,
            "batch=histories": B}
     mode = "previous"
@@ -183,16 +191,20 @@ def shard(conn, skind, dt, maxk, fractional, T, F=2, only_assign=None, only_clea
                         view_s[:, n, 0] = interp("delta", spk, None, None, tl, s, mode, dt)[:, n]
                 else:
                     Fn = W.shape[0]
-                    exp = torch.zeros(B, Fn, 1, 2)
-                    view_c = torch.zeros(B, 2, 2, Fn)
-                    view_s = torch.zeros(B, 2, 2, Fn)
+                    H_, W_, kh, kw_ = CONV_GEOM[conn]
+                    OH, OW = H_ - kh + 1, W_ - kw_ + 1
+                    NN, LL = kh * kw_, OH * OW
+                    exp = torch.zeros(B, Fn, OH, OW)
+                    view_c = torch.zeros(B, NN, LL, Fn)
+                    view_s = torch.zeros(B, NN, LL, Fn)
                     for f in range(Fn):
-                        for k in range(2):
-                            s = float(D[f, 0, 0, k]) / dt
-                            ci = interp(skind, cur, cpos, cneg, tl, s, mode, dt)[:, k, :]  # (B, L)
-                            exp[:, f, 0, :] += W[f, 0, 0, k] * ci
-                            view_c[:, k, :, f] = ci
-                            view_s[:, k, :, f] = interp("delta", spk, None, None, tl, s, mode, dt)[:, k, :]
+                        for n in range(NN):
+                            i, j = divmod(n, kw_)
+                            s = float(D[f, 0, i, j]) / dt
+                            ci = interp(skind, cur, cpos, cneg, tl, s, mode, dt)[:, n, :]  # (B, L)
+                            exp[:, f] += (W[f, 0, i, j] * ci).reshape(B, OH, OW)
+                            view_c[:, n, :, f] = ci
+                            view_s[:, n, :, f] = interp("delta", spk, None, None, tl, s, mode, dt)[:, n, :]
                 def bad(a, b):
                     return a.shape != b.shape or not torch.allclose(a, b, rtol=1e-5, atol=1e-5)
 
@@ -217,8 +229,10 @@ def shard(conn, skind, dt, maxk, fractional, T, F=2, only_assign=None, only_clea
                         tally.violation(f"synspike-view:{conn}:{skind}", {**case, "step": t}, f"synspike {tuple(ss.shape)} differs from the shifted undelayed spikes")
                         break
                 # zero delays are indistinguishable from no delay (bitwise)
-                if all(k == 0 for k in assign) and not torch.equal(od, ou):
-                    tally.violation(f"zero-delay!=undelayed:{conn}:{skind}", {**case, "step": t}, "all-zero delays differ bitwise from the connection built without delays")
+                # (not bitwise: the delayed path sums the receptive field with einsum, the undelayed one with matmul, and the
+                # two may associate a 4-term float sum differently)
+                if all(k == 0 for k in assign) and bad(od, ou):
+                    tally.violation(f"zero-delay!=undelayed:{conn}:{skind}", {**case, "step": t}, "all-zero delays differ from the connection built without delays")
                     break
             if any(k > 0 for k in assign):
                 tally.mark("nontrivial", (conn, skind, dt, maxk, fractional, assign, clear_at))
@@ -247,6 +261,9 @@ def run(rep):
                         jobs.append((shard, (conn, skind, dt, 2 if not quick else 1, True, T, 1)))
                     elif not quick:
                         jobs.append((shard, (conn, skind, dt, 1, True, T, 2)))
+    # a 2x2 kernel: row/column order of the per-kernel-element delays matters (2x3 input, 64 input letters -> shorter histories)
+    for skind in ("delta", "exp") if quick else ("delta", "deltaplus", "exp", "dexp"):
+        jobs.append((shard, ("conv22", skind, 1.0, 1 if quick else 2, False, 2, 1)))
     tally = run_shards(jobs, seed=rep.seed)
     rep.tally.merge(tally)
     c = tally.counts
